@@ -51,7 +51,14 @@ impl BlockFormatter for BlockIndentRemover {
             None if is_blank(&bytes[..start_byte_pos]) => start_byte_pos,
             None => 0,
         };
-        let mut current_pos = start_byte_pos + 1;
+        // The body starts on the line after the one the block range starts on. Usually the range
+        // starts right at that line's line break; when text follows the removed opening part on
+        // its line (a removed child ended in the middle of the line), skip that text - it is not
+        // at the start of a line and one byte further may not even be a character boundary.
+        let mut current_pos = match find_next_line_break_pos(content, bytes, start_byte_pos, false) {
+            Some(pos) => pos + 1,
+            None => return vec![],
+        };
         let first_indent_len = get_indent_len(content, current_pos);
         let indent_len = first_indent_len.saturating_sub(indent_ofs);
 
